@@ -33,6 +33,9 @@ pub enum Conn {
     WebSocket,
     /// two requests back to back on one keep-alive connection, each in its own write
     TwoRequests,
+    /// complete request for a response larger than a socket send buffer; the client reads nothing until
+    /// `run` has returned, so the response is being written when the signal arrives
+    BigResponse,
 }
 
 #[derive(Clone, Debug)]
@@ -48,6 +51,8 @@ pub struct Obs {
     pub run_returned: bool,
     pub run_result_ok: bool,
     pub rebind_ok: Option<bool>,
+    /// source ports of the connections whose request reached the slow handler
+    pub slow_entered: Vec<u16>,
 }
 
 type St = Arc<Mutex<Obs>>;
@@ -60,6 +65,8 @@ fn condition(stream: &mut TcpStream, st: Arc<St>) -> bool {
 }
 
 const BODY: &[u8] = b"0123456789abcdefghijklmnopqrstuvwxyz-body";
+/// larger than the simulated send buffer (256 KiB)
+pub const BIG: usize = 300 * 1024;
 
 pub fn body(scn: &Scn, obs: &St) {
     let (tx, rx) = channel::<()>();
@@ -67,14 +74,19 @@ pub fn body(scn: &Scn, obs: &St) {
     let (gate_tx, gate_rx) = channel::<()>();
     let gate_rx = Arc::new(humphrey::verif::sync::Mutex::new(gate_rx));
     let g2 = gate_rx.clone();
+    // a second gate, also opened once run() has returned: clients that read nothing before that
+    let (read_tx, read_rx) = channel::<()>();
+    let read_rx = Arc::new(humphrey::verif::sync::Mutex::new(read_rx));
     let app: App<St> = App::new_with_config(scn.p, obs.clone())
         .with_shutdown(rx)
         .with_connection_condition(condition)
         .with_stateless_route("/", |_req: Request| Response::new(StatusCode::OK, BODY))
-        .with_stateless_route("/slow", move |_req: Request| {
+        .with_route("/slow", move |req: Request, st: Arc<St>| {
+            st.lock().unwrap().slow_entered.push(req.address.port);
             let _ = g2.lock().unwrap().recv();
             Response::new(StatusCode::OK, b"late")
         })
+        .with_stateless_route("/big", |_req: Request| Response::new(StatusCode::OK, vec![b'B'; BIG]))
         .with_websocket_route("/ws", |_req: Request, mut stream: Stream, _st: Arc<St>| {
             let _ = stream.write_all(b"HTTP/1.1 101 Switching Protocols\r\n\r\n");
             let mut buf = [0u8; 16];
@@ -88,6 +100,7 @@ pub fn body(scn: &Scn, obs: &St) {
     let target: std::net::SocketAddr = if scn.bind.starts_with('[') { format!("[::1]:{}", port).parse().unwrap() } else { format!("127.0.0.1:{}", port).parse().unwrap() };
     for (i, c) in scn.conns.iter().enumerate() {
         let c = *c;
+        let read_gate = read_rx.clone();
         let from: std::net::SocketAddr = if target.is_ipv4() { format!("127.0.0.1:{}", 5000 + i).parse().unwrap() } else { format!("[::1]:{}", 5000 + i).parse().unwrap() };
         thread::Builder::new()
             .name(format!("client{}", i))
@@ -115,9 +128,13 @@ pub fn body(scn: &Scn, obs: &St) {
                         let _ = s.write_all(b"GET / HTTP/1.1\r\nHost: x\r\nConnection: keep-alive\r\n\r\n");
                         let _ = s.write_all(b"GET / HTTP/1.0\r\nHost: x\r\nConnection: close\r\n\r\n");
                     }
+                    Conn::BigResponse => {
+                        let _ = s.write_all(b"GET /big HTTP/1.1\r\nHost: x\r\nConnection: close\r\n\r\n");
+                        let _ = read_gate.lock().unwrap().recv();
+                    }
                 }
                 // keep the socket open: block reading until the server closes (or forever)
-                let mut buf = [0u8; 64];
+                let mut buf = [0u8; 65536];
                 while let Ok(n) = s.read(&mut buf) {
                     if n == 0 {
                         break;
@@ -142,6 +159,7 @@ pub fn body(scn: &Scn, obs: &St) {
     obs.lock().unwrap().rebind_ok = Some(again.is_ok());
     drop(again);
     drop(gate_tx);
+    drop(read_tx);
     // note: gate_tx dropped => "long" handlers are released after run() has returned; before that they block
 }
 
@@ -245,8 +263,10 @@ pub fn check(scn: &Scn, r: &ExecResult, o: &Obs, choices: &[usize], s: &mut Stat
                     Conn::Short | Conn::KeepAliveIdle => (1, 1),
                     // the second request may be lost when both arrive in one read (recorded under C01)
                     Conn::TwoRequests => (2, 1),
-                    // the blocked handler is released only after run() has returned
-                    Conn::Long => (1, 0),
+                    // the blocked handler is released only after run() has returned; once it has the request, its
+                    // response must arrive (whole): the shutdown must not cancel a request that is being handled
+                    Conn::Long => (1, if o.slow_entered.contains(&port) { 1 } else { 0 }),
+                    Conn::BigResponse => (1, 1),
                     _ => (0, 0),
                 };
                 if n > expect {
@@ -258,7 +278,7 @@ pub fn check(scn: &Scn, r: &ExecResult, o: &Obs, choices: &[usize], s: &mut Stat
                     let blockers = scn.conns.iter().enumerate().filter(|(j, k)| *j != i && matches!(k, Conn::JustConnected | Conn::HalfRequest | Conn::KeepAliveIdle | Conn::WebSocket | Conn::TwoRequests)).count();
                     blockers < scn.p
                 } {
-                    s.violation(format!("{} an accepted connection with a complete request was never answered", class), || ctx(format!("connection {} ({:?}): {} of {} responses", i, c, n, must)));
+                    s.violation(format!("{} {}", class, if *c == Conn::Long { "a request that was being handled when the signal came was never answered" } else { "an accepted connection with a complete request was never answered" }), || ctx(format!("connection {} ({:?}): {} of {} responses", i, c, n, must)));
                 } else if !accepted && n > 0 {
                     s.violation(format!("{} a response on a connection that was never accepted", class), || ctx(format!("connection {}", i)));
                 }
@@ -289,6 +309,12 @@ pub fn scenarios(quick: bool) -> Vec<(Scn, Bound)> {
         }
         v.push((Scn { p, bind: "0.0.0.0:8080", conns: vec![Conn::Short] }, Bound::Deviation(if quick { 3 } else { 4 })));
         v.push((Scn { p, bind: "[::]:8080", conns: vec![Conn::Long] }, Bound::Deviation(if quick { 3 } else { 4 })));
+    }
+    for p in [1usize, 2] {
+        v.push((Scn { p, bind: "127.0.0.1:8080", conns: vec![Conn::BigResponse] }, Bound::Deviation(if quick { 2 } else { 3 })));
+        for other in [Conn::Short, Conn::Long, Conn::BigResponse] {
+            v.push((Scn { p, bind: "127.0.0.1:8080", conns: vec![Conn::BigResponse, other] }, Bound::Deviation(if quick { 1 } else { 2 })));
+        }
     }
     // two connections: every unordered pair of kinds (fully occupied pools included: Long+Long on P=1 and P=2)
     for p in [1usize, 2] {
